@@ -102,6 +102,24 @@ pub fn exercise_zone(zr: TimeZoneRef<'_>, budget: usize) {
         let _ = DateTime::find(y, 12, 31, 23, 59, 60, 999_999_999, zr);
         let _ = DateTime::find_n(&mut buf[..1], y, 6, 15, 12, 0, 0, 0, zr);
     }
+    // invalid calendar fields through BOTH search entry points, every constructor taking fields, on this zone (tables index months
+    // and days: a field that skips validation on one path panics or yields a nonsense value there; seeded change C07-r9m1).
+    // "Invalid input yields an error value": an Ok here is reported like a panic.
+    let ltt0 = zr.local_time_types()[0];
+    for (mo, d, h, mi, s, ns) in [(0u8, 1u8, 0u8, 0u8, 0u8, 0u32), (13, 1, 0, 0, 0, 0), (255, 1, 0, 0, 0, 0), (1, 0, 0, 0, 0, 0), (1, 32, 0, 0, 0, 0), (2, 30, 0, 0, 0, 0), (4, 31, 0, 0, 0, 0), (12, 255, 0, 0, 0, 0), (6, 15, 24, 0, 0, 0), (6, 15, 255, 0, 0, 0), (6, 15, 0, 60, 0, 0), (6, 15, 0, 255, 0, 0), (6, 15, 0, 0, 61, 0), (6, 15, 0, 0, 255, 0), (6, 15, 0, 0, 0, 1_000_000_000), (6, 15, 0, 0, 0, u32::MAX), (0, 0, 255, 255, 255, u32::MAX)] {
+        for y in [1969i32, 2021, i32::MIN, i32::MAX] {
+            let a = DateTime::find(y, mo, d, h, mi, s, ns, zr).map(|l| l.into_inner().len());
+            let b = DateTime::find_n(&mut buf, y, mo, d, h, mi, s, ns, zr).map(|l| l.count());
+            let c = DateTime::find_n(&mut buf[..0], y, mo, d, h, mi, s, ns, zr).map(|l| l.count());
+            let e = DateTime::new(y, mo, d, h, mi, s, ns, ltt0).map(|_| 1usize);
+            let f = UtcDateTime::new(y, mo, d, h, mi, s, ns).map(|_| 1usize);
+            for (what, r) in [("DateTime::find", a), ("DateTime::find_n", b), ("DateTime::find_n (empty buffer)", c), ("DateTime::new", e), ("UtcDateTime::new", f)] {
+                if let Ok(k) = r {
+                    panic!("VERIF-C07 invalid calendar fields ({y}, {mo}, {d}, {h}, {mi}, {s}, {ns}) were not refused by {what}: Ok with {k} result(s)");
+                }
+            }
+        }
+    }
 }
 
 /// bytes -> TimeZone::from_tz_data: bounded allocation, reference decoding (C08 oracle), then every query on the result.
